@@ -57,6 +57,7 @@ type AbsfsNFS struct {
 	workerPool       *WorkerPool             // Worker pool for concurrent operations
 	metrics          *MetricsCollector       // Metrics collection and reporting
 	rateLimiter      *RateLimiter            // Rate limiter for DoS protection
+	rateLimiterMu    sync.RWMutex            // Guards rateLimiter: policy updates replace it at runtime
 	exportServer     *Server                 // Server created by Export(), nil if not exported
 
 	// Options are stored as immutable snapshots behind atomic pointers.
